@@ -116,12 +116,12 @@ class VC:
         e, s, ln = k
         parts = []
         if e != 0:
-            parts.append("exp")
-        if s:
-            parts.append("sqrt")
-        if ln:
-            parts.append("ln")
-        return "*".join(parts)
+            parts.append("exp(" + _short(e) + ")")
+        for G in s:
+            parts.append("sqrt(" + _short(G) + ")")
+        for H, p in ln:
+            parts.append("ln " + _short(H) + (f"^{p}" if p != 1 else ""))
+        return " ".join(parts)
 
     def disj(self, only=None):
         ds = []
@@ -226,6 +226,14 @@ class VC:
                         out["model_boxed"] = mb
                         break
         return out
+
+
+def _short(p):
+    t = str(p)
+    if len(t) <= 24:
+        return t
+    import hashlib
+    return t[:12] + "~" + hashlib.md5(t.encode()).hexdigest()[:6]
 
 
 def _to_float(v):
